@@ -807,6 +807,10 @@ class StmtMixin:
         s.spec = True
         for inv in list(spec.inv) + list(spec.assume_only):
             st.assume(self.spec_bool(inv, s, frame))
+        for lem in spec.lemmas:
+            if not lem.strip().startswith('bsum_unfold('):
+                raise VCError('only definitional unfoldings may be assumed as loop lemmas: %s' % lem)
+            st.assume(self.spec_bool(lem, s, frame))
 
     def havoc_loop(self, node, spec, st, frame):
         assigned = set()
